@@ -57,7 +57,7 @@ for t in ATYPS:
       timeout=1500 if t == 'DT_YWD' else 600, tier='thorough' if t == 'DT_YWD' else 'quick', **DN_IN)
 G('da.dt_dadd', 'date-core', 'dt_dadd', ARITH, ins=[(U, 'in_typ'), ('uint32_t', 'in_u'), (U, 'in_dt'), ('int', 'in_n')],
   setup='struct dt_d_s d = {DT_DUNK}; d.typ = (dt_dtyp_t)in_typ; d.u = in_u; struct dt_ddur_s dur = {DT_DURUNK}; dur.durtyp = (dt_durtyp_t)in_dt; dur.dv = in_n;',
-  call='dt_dadd(d, dur)', ret='struct dt_d_s', replace=['dt_dadd_d', 'dt_dadd_w'] + UNR('dt_dadd_b', 'dt_dadd_m', 'dt_dadd_y'), solvers=SV, timeout=1800, tier='thorough',
+  call='dt_dadd(d, dur)', ret='struct dt_d_s', replace=['dt_dadd_d', 'dt_dadd_w', 'dt_dadd_m', 'dt_dadd_y'] + UNR('dt_dadd_b'), solvers=SV, timeout=1800, tier='thorough',
   sweep={'in_typ': 'RND % 12', 'in_dt': '6 + 2 * (RND % 2)', 'in_n': '(int)(RND % 4000) - 2000'})
 
 # dt_ddiff, day differences (DT_DURD)
